@@ -657,7 +657,8 @@ package router
 //@ # the offending packet's path as the decoder left it (C19: Base.DecodeFromBytes): a standard SCION path, directly
 //@ # or inside an EPIC path
 //@ macro origPath(p) = ite(typeis(p.scionLayer.Path, *scion.Raw), asptr(p.scionLayer.Path, *scion.Raw), asptr(p.scionLayer.Path, *epic.Path).ScionPath)
-//@ macro scmpPathOK(p) = ((typeis(p.scionLayer.Path, *scion.Raw) || (typeis(p.scionLayer.Path, *epic.Path) && asptr(p.scionLayer.Path, *epic.Path) != nil)) && origPath(p) != nil && scion.baseOK(origPath(p).PathMeta.SegLen[0], origPath(p).PathMeta.SegLen[1], origPath(p).PathMeta.SegLen[2], origPath(p).NumINF, origPath(p).NumHops))
+//@ # (and the underlay header room is a small non-negative configuration constant)
+//@ macro scmpPathOK(p) = (0 <= p.d.underlayHeadroom && p.d.underlayHeadroom <= 1024 && (typeis(p.scionLayer.Path, *scion.Raw) || (typeis(p.scionLayer.Path, *epic.Path) && asptr(p.scionLayer.Path, *epic.Path) != nil)) && origPath(p) != nil && scion.baseOK(origPath(p).PathMeta.SegLen[0], origPath(p).PathMeta.SegLen[1], origPath(p).PathMeta.SegLen[2], origPath(p).NumINF, origPath(p).NumHops))
 //@ # a peering hop: the info field says peering and the current hop is the last of the first or the first of the second segment
 //@ func determinePeer
 //@   props C10 C22
@@ -669,7 +670,7 @@ package router
 //@ iface drkeyProvider.GetASHostKey
 //@   modifies nothing
 //@ func (*slowPathPacketProcessor).prepareSCMP
-//@   props C09 C10
+//@   props C09 C10 C08
 //@   nosafety
 //@   maxpaths 20000
 //@   opaque (*github.com/scionproto/scion/pkg/slayers.SCION).DstAddr
@@ -750,7 +751,7 @@ package router
 //@ func (*slowPathPacketProcessor).processPacket
 //@   props C09
 //@   callmod decodeLayers: p.scionLayer, p.hbhLayer, p.e2eLayer
-//@   requires p != nil && p == curSlow && pkt != nil && pkt.Link != nil && p.d != nil
+//@   requires p != nil && p == curSlow && pkt != nil && pkt.Link != nil && p.d != nil && 0 <= p.d.underlayHeadroom && p.d.underlayHeadroom <= 1024
 //@   # the slow-path requests the fast path produces (C04-C06, C10-C13): router alerts and four SCMP error types
 //@   requires pkt.slowPathRequest.spType == slowPathRouterAlertIngress || pkt.slowPathRequest.spType == slowPathRouterAlertEgress || pkt.slowPathRequest.spType == 1 || pkt.slowPathRequest.spType == 4 || pkt.slowPathRequest.spType == 5 || pkt.slowPathRequest.spType == 6
 
